@@ -62,14 +62,20 @@ pub fn layers(
 ) -> Vec<Layer> {
     let space = Space::of(w, DUMMY_ROOT);
     let visits = model.traverse(&space.start, w.link, None);
-    let n = match g.rng.below(10) {
-        0..=2 => 1,
-        3..=6 => 2,
-        7..=8 => 3.min(opts.max_layers),
-        _ => opts.max_layers,
+    let n = if opts.max_layers > 4 {
+        // deep stacks (type-erased builds only)
+        g.rng.range(5, opts.max_layers)
     }
-    .min(opts.max_layers)
-    .max(1);
+    else {
+        match g.rng.below(10) {
+            0..=2 => 1,
+            3..=6 => 2,
+            7..=8 => 3.min(opts.max_layers),
+            _ => opts.max_layers,
+        }
+        .min(opts.max_layers)
+        .max(1)
+    };
     // candidate victims: directories with children first
     let dirs: Vec<&str> = visits
         .iter()
